@@ -112,7 +112,7 @@ DOC_KSK_POLICY = {
 DOC_KEY = {
     "description": ("str", "REQUIRED"),
     "label": ("keyname", "REQUIRED"),
-    "key_tag": (("int", 1, 65535), None),
+    "key_tag": (("int", 0, 65535), None),  # "DNSSEC key tag" (config/ksrsigner.yaml): a 16-bit checksum, 0 included
     "algorithm": ("alg", "REQUIRED"),
     "valid_from": ("datetime", "REQUIRED"),
     "valid_until": ("datetime", None),
@@ -1353,7 +1353,7 @@ def main_cases(base: dict[str, Any], scratch: Path) -> list[dict[str, Any]]:
         ("validation:negative-dns-ttl", mut(("request_policy", "dns_ttl"), -1)),
         ("validation:rsa-size-0", mut(("keys", "ksk_next", "rsa_size"), 0)),
         ("validation:rsa-size-65536", mut(("request_policy", "rsa_approved_key_sizes"), [65536])),
-        ("validation:key-tag-0", mut(("keys", "ksk_next", "key_tag"), 0)),
+        ("validation:key-tag-negative", mut(("keys", "ksk_next", "key_tag"), -1)),
         ("validation:key-tag-65536", mut(("keys", "ksk_next", "key_tag"), 65536)),
         ("validation:label", mut(("keys", "ksk_next", "label"), "K-1")),
         ("validation:domain", mut(("request_policy", "acceptable_domains"), ["exa mple"])),
